@@ -93,6 +93,13 @@ func c04DecoderExact(c *Ctx, prop string, npos int) (decided bool) {
 		}
 	}
 	gotAccept := m.Not(rs[1].Bits[0])
+	// the dispatchers lower the name first: names with upper-case letters never
+	// arrive here, so a decoder may treat them either way
+	for i := 0; i < 64; i++ {
+		lw := m.Not(byteFn(in.Elems[i], func(b int) bool { return b >= 'A' && b <= 'Z' }))
+		accept = m.And(accept, lw)
+		gotAccept = m.And(gotAccept, lw)
+	}
 	if npos < 64 {
 		// a decoder that also insists on the dot at 63 is as good: compare on the
 		// names that have it
